@@ -1,3 +1,4 @@
+import Sparrow.Proofs.SetterGlueEquiv
 import Sparrow.Proofs.ExchangeGlueEquiv
 import Sparrow.Proofs.LifeLemmas
 import Sparrow.Generated.Lifecycle
@@ -102,3 +103,28 @@ theorem calculateEnergyExchange_eq (P D B nVis : Nat) (pc : Nat → Nat → ℝ)
   Sparrow.calculateEnergyExchange_eq P D B nVis pc d0 e0 fft p2o vp etc0 dt0 c0 dur0 c dt dur K recalc s0 s1 s2 s3 s4 s5 s6 s7 junk
 
 end Sparrow.Props.C16.ExchangeGlue
+
+namespace Sparrow.Props.C16.SetterGlue
+open Sparrow Sparrow.Generated.SetterGlue
+
+/-- what a successful `set_wall_brdf` returns, field by field -/
+theorem setWallBrdf_some (rotate : (Nat → ℝ) → (Nat → ℝ) → C → C → C × C) (n : Nat) (wn wu : Nat → Nat → ℝ)
+    (st st' : MatState ℝ C) (ws : List Nat) (fq : Nat × (Nat → ℝ)) (T : Nat → Nat → Nat → ℝ) (inc out : C)
+    (ok1 ok2 : Bool) (e : Nat → Nat → Nat → Nat → ℝ)
+    (h : setWallBrdf rotate n wn wu st ws fq T inc out ok1 ok2 e = some st') :
+    ∃ len tabs idx,
+      (if st.dirsIn.isNone = true then (some (0, e), some (fun _ => (-1 : Int))) else (st.brdf, st.index)) =
+        (some (len, tabs), some idx) ∧
+      st'.brdf = some (len + 1, fun k a b c => if k = len then T a b c * Real.pi else tabs k a b c) ∧
+      st'.index = some (fun w => if w ∈ ws then ((len + 1 : Nat) : Int) - 1 else idx w) ∧
+      checkSetFrequency st.frequencies fq = some st'.frequencies ∧ st'.att = st.att :=
+  Sparrow.setWallBrdf_some rotate n wn wu st st' ws fq T inc out ok1 ok2 e h
+
+/-- `set_air_attenuation` touches the attenuation (and fixes the frequencies on first use), nothing else -/
+theorem setAirAttenuation_some (st st' : MatState ℝ C) (fq : Nat × (Nat → ℝ)) (a : Nat → ℝ)
+    (h : setAirAttenuation st fq a = some st') :
+    st'.att = some a ∧ st'.brdf = st.brdf ∧ st'.index = st.index ∧ st'.dirsIn = st.dirsIn ∧ st'.dirsOut = st.dirsOut ∧
+      checkSetFrequency st.frequencies fq = some st'.frequencies :=
+  Sparrow.setAirAttenuation_some st st' fq a h
+
+end Sparrow.Props.C16.SetterGlue
